@@ -172,7 +172,14 @@ pub fn check_seed_ex(seed: &Seed, opt_sets: &[u32], widths: &[usize], with_sigs_
                     Some(b2) => {
                         if b2 != seed.bytes {
                             let pos = b2.iter().zip(&seed.bytes).position(|(a, b)| a != b).unwrap_or(b2.len().min(seed.bytes.len()));
-                            let sig = if has_const_cond_jump(&text) { "C01:bytes-differ:conditional-jump-on-two-literals-is-refolded".to_string() } else { format!("C01:{}:bytes-differ:{}", seed.host, seed.label) };
+                            // a non-canonical NaN (sign or payload bits) is printed as `NAN` and comes back as 0x7FC00000 (the C08 finding)
+                            let o = pos & !3;
+                            let nan_lost = text.contains("NAN") && b2.len() == seed.bytes.len() && o + 4 <= b2.len()
+                                && f32::from_le_bytes([seed.bytes[o], seed.bytes[o + 1], seed.bytes[o + 2], seed.bytes[o + 3]]).is_nan()
+                                && b2[o..o + 4] == 0x7FC00000u32.to_le_bytes()
+                                && b2[o + 4..] == seed.bytes[o + 4..];
+                            let sig = if nan_lost { "C01:bytes-differ:nan-bits-lost".to_string() }
+                                else if has_const_cond_jump(&text) { "C01:bytes-differ:conditional-jump-on-two-literals-is-refolded".to_string() } else { format!("C01:{}:bytes-differ:{}", seed.host, seed.label) };
                             out.failures.push(Failure { signature: sig, detail: detail("bytes-differ", json!({"first_diff_offset": pos, "len_original": seed.bytes.len(), "len_recompiled": b2.len(), "text": text, "decompile_diag": d.diag})) });
                         } else { out.classes.push("identical".into()); }
                     },
@@ -354,8 +361,10 @@ pub fn run(tier: &str) -> Report {
 pub fn has_const_cond_jump(text: &str) -> bool {
     for line in text.lines() {
         let t = line.trim();
-        let rest = if let Some(r) = t.strip_prefix("if (") { r } else if let Some(r) = t.strip_prefix("unless (") { r } else { continue };
-        let Some(end) = rest.find(") goto ") else { continue; };
+        let t = t.strip_prefix("} else ").unwrap_or(t);
+        let rest = if let Some(r) = t.strip_prefix("if (") { r } else if let Some(r) = t.strip_prefix("unless (") { r } else if let Some(r) = t.strip_prefix("while (") { r } else if let Some(r) = t.strip_prefix("} while (") { r } else { continue };
+        // the same instruction printed as a jump or, with block recovery, as the head of a block
+        let Some(end) = rest.find(") goto ").or_else(|| rest.strip_suffix(") {").map(|r| r.len())).or_else(|| rest.strip_suffix(");").map(|r| r.len())) else { continue; };
         let cond: Vec<&str> = rest[..end].split(' ').collect();
         let is_lit = |s: &str| { let s = s.strip_prefix('-').unwrap_or(s); !s.is_empty() && s.chars().all(|c| c.is_ascii_digit()) };
         if cond.len() == 3 && is_lit(cond[0]) && is_lit(cond[2]) && ["==", "!=", "<", "<=", ">", ">="].contains(&cond[1]) { return true; }
